@@ -251,9 +251,84 @@ fn run_f9() -> String {
     }
 }
 
+/// sync_channel(0), the schedule OUTSIDE finding F9: the sender runs first until it is parked inside the blocking mpsc send (its
+/// try_send has returned Full and pinged by then); only then does the loop start dispatching. The rendezvous must complete.
+fn run_parked_first() -> String {
+    let log: Log = Arc::new(Mutex::new(vec![]));
+    let (tx, chan) = sync_channel::<u64>(0);
+    let mut sched = Sched::new(2);
+    {
+        let log = log.clone();
+        sched.spawn(0, move || {
+            let mut event_loop: EventLoop<'static, ()> = EventLoop::try_new().expect("loop");
+            let l2 = log.clone();
+            let _t = event_loop
+                .handle()
+                .insert_source(chan, move |ev, _, _| {
+                    if let Event::Msg(v) = ev {
+                        l2.lock().unwrap().push(format!("M{}", v));
+                    }
+                })
+                .expect("insert");
+            for _ in 0..8 {
+                let _ = event_loop.dispatch(Some(Duration::ZERO), &mut ());
+            }
+            std::mem::forget(event_loop);
+        });
+    }
+    {
+        let log = log.clone();
+        sched.spawn(1, move || {
+            let r = tx.send(7);
+            log.lock().unwrap().push(format!("SENT{}", r.is_ok() as u8));
+            std::mem::forget(tx);
+        });
+    }
+    for i in 0..2 {
+        sched.step(i);
+    }
+    // the sender alone, until it blocks natively (or finishes)
+    let mut guard = 0;
+    while guard < 20 {
+        guard += 1;
+        match do_step(1, &log, &sched) {
+            StepResult::BlockedNow(_) | StepResult::StillBlocked | StepResult::Finished => break,
+            StepResult::Ran(_) => {}
+        }
+    }
+    // now the loop dispatches; the sender is stepped whenever the rendezvous has released it
+    guard = 0;
+    while !matches!(sched.status(0), Status::Finished) && guard < 200 {
+        guard += 1;
+        do_step(0, &log, &sched);
+        sched.refresh_blocked(1);
+        if matches!(sched.status(1), Status::Parked(_)) {
+            do_step(1, &log, &sched);
+        }
+    }
+    guard = 0;
+    while matches!(sched.status(1), Status::Parked(_)) && guard < 20 {
+        guard += 1;
+        do_step(1, &log, &sched);
+    }
+    let delivered = log.lock().unwrap().iter().any(|l| l.starts_with('M'));
+    let sender_done = matches!(sched.status(1), Status::Finished);
+    let out = log.lock().unwrap().join(" ");
+    sched.finish();
+    if delivered && sender_done {
+        format!("{} DELIVERED", out)
+    } else {
+        format!("{} STUCK delivered={} sender_done={}", out, delivered as u8, sender_done as u8)
+    }
+}
+
 pub fn run0() {
-    crate::for_each_line(|_| {
-        let r = std::panic::catch_unwind(run_f9).unwrap_or_else(|_| "PANIC".to_string());
+    crate::for_each_line(|l| {
+        let r = if l.trim() == "parked" {
+            std::panic::catch_unwind(run_parked_first).unwrap_or_else(|_| "PANIC".to_string())
+        } else {
+            std::panic::catch_unwind(run_f9).unwrap_or_else(|_| "PANIC".to_string())
+        };
         println!("{}", r);
     });
 }
